@@ -1,6 +1,6 @@
 ------------------------------- MODULE Pstate -------------------------------
 (* The particle state (ladim/state.py, State) as a struct of arrays, shaped like the implementation:
-     iv : instance arrays  [pid, alive, tag, age]  (one entry per particle instance; compactified)
+     iv : instance arrays  [pid, alive, tag, age, mark]  (one entry per particle instance; compactified)
      pv : particle arrays  [ptag]                  (indexed by pid; never compactified)
      npid : number of identifiers handed out
    `tag` / `ptag` carry a birth tag 100 + pid: "values follow the particle" becomes checkable.
@@ -13,7 +13,7 @@ Mask(s, m) ==                       \* s[m] of numpy: keep the entries whose mas
    LET idx == SelectSeq([i \in 1..Len(s) |-> i], LAMBDA i : m[i])
    IN [k \in 1..Len(idx) |-> s[idx[k]]]
 
-Empty == [iv |-> [pid |-> <<>>, alive |-> <<>>, tag |-> <<>>, age |-> <<>>], pv |-> [ptag |-> <<>>], npid |-> 0]
+Empty == [iv |-> [pid |-> <<>>, alive |-> <<>>, tag |-> <<>>, age |-> <<>>, mark |-> <<>>], pv |-> [ptag |-> <<>>], npid |-> 0]
 Len_(st) == Len(st.iv.pid)
 
 \* append n particles; `ages` is the broadcast result for the instance variable age (length n)
@@ -22,18 +22,23 @@ Append_(st, n, ages) ==
    [iv |-> [pid   |-> st.iv.pid \o new,
             alive |-> st.iv.alive \o [i \in 1..n |-> TRUE],
             tag   |-> st.iv.tag \o [i \in 1..n |-> Tag(new[i])],
-            age   |-> st.iv.age \o ages],
+            age   |-> st.iv.age \o ages,
+            mark  |-> st.iv.mark \o [i \in 1..n |-> 0]],
     pv |-> [ptag |-> st.pv.ptag \o [i \in 1..n |-> Tag(new[i])]],
     npid |-> st.npid + n]
 Kill_(st, i)   == [st EXCEPT !.iv.alive[i] = FALSE]
 \* operational compactify: one masked copy per instance variable with a *copy* of the alive mask
 Compactify_(st) == LET m == st.iv.alive IN
    [st EXCEPT !.iv = [pid |-> Mask(st.iv.pid, m), alive |-> Mask(st.iv.alive, m),
-                      tag |-> Mask(st.iv.tag, m), age |-> Mask(st.iv.age, m)]]
+                      tag |-> Mask(st.iv.tag, m), age |-> Mask(st.iv.age, m), mark |-> Mask(st.iv.mark, m)]]
 IncAge_(st)    == [st EXCEPT !.iv.age = [i \in 1..Len(st.iv.age) |-> st.iv.age[i] + 1]]
+\* one variable assigned from another (state["mark"] = state["age"]): a copy of the values, not a shared array ...
+CopyAge_(st)   == [st EXCEPT !.iv.mark = st.iv.age]
+\* ... so that a later in-place change of one entry of `age` leaves `mark` alone
+Bump_(st, i)   == [st EXCEPT !.iv.age[i] = @ + 1]
 
 \* ---- the properties (C05) as predicates on a state ------------------------------------------------
-EqualLen(st)       == \A f \in {"alive", "tag", "age"} : Len(st.iv[f]) = Len(st.iv.pid)
+EqualLen(st)       == \A f \in {"alive", "tag", "age", "mark"} : Len(st.iv[f]) = Len(st.iv.pid)
 PidsIncreasing(st) == \A i \in 1..(Len_(st) - 1) : st.iv.pid[i] < st.iv.pid[i + 1]
 PidGeIndex(st)     == \A i \in 1..Len_(st) : st.iv.pid[i] >= i - 1
 PidsBelowNpid(st)  == \A i \in 1..Len_(st) : st.iv.pid[i] < st.npid
@@ -46,6 +51,6 @@ IsCompaction(a, b) ==
    /\ Len_(b) = Cardinality(keep) /\ EqualLen(b)
    /\ \A k \in 1..Len_(b) : b.iv.alive[k]
    /\ \A i \in keep : LET k == Cardinality({ j \in keep : j <= i })
-                      IN b.iv.pid[k] = a.iv.pid[i] /\ b.iv.tag[k] = a.iv.tag[i] /\ b.iv.age[k] = a.iv.age[i]
+                      IN b.iv.pid[k] = a.iv.pid[i] /\ b.iv.tag[k] = a.iv.tag[i] /\ b.iv.age[k] = a.iv.age[i] /\ b.iv.mark[k] = a.iv.mark[i]
    /\ b.pv = a.pv /\ b.npid = a.npid
 =============================================================================
